@@ -302,6 +302,25 @@ def run_case(case):
             spec = dict(integrator=integ, system=sysd, opts=opts, dt=gen.inner_period(sysd) / 40.7, collision='direct', collision_resolve='merge')
             sim = gen.build_sim(spec)
             G = sim.G
+            if r.random() < 0.5 and integ not in ('mercurius', 'trace'):
+                # massless bodies with a physical size on their way into a planet: a merger of a massless and a massive particle must
+                # leave mass, momentum and centre of mass alone just as well (the massless one sits below or above the planet in the array)
+                npl_ = sim.N - 1
+                for _q in range(rr.randint(1, 2)):
+                    j_ = rr.randint(1, npl_)
+                    pj = sim.particles[j_]
+                    R_ = pj.r
+                    ux, uy = math.cos(rr.uniform(0, 6.28)), math.sin(rr.uniform(0, 6.28))
+                    vorb = math.sqrt(pj.vx ** 2 + pj.vy ** 2 + pj.vz ** 2)
+                    sim.add(m=0.0, r=0.3 * R_, x=pj.x + 1.6 * R_ * ux, y=pj.y + 1.6 * R_ * uy, z=pj.z, vx=pj.vx - 0.03 * vorb * ux, vy=pj.vy - 0.03 * vorb * uy, vz=pj.vz + 0.2 * vorb)
+                    counters['massless_bodies_on_collision_course'] = counters.get('massless_bodies_on_collision_course', 0) + 1
+                if rr.random() < 0.5:
+                    # ... and sometimes in front of the planets in the array
+                    ps_ = [sim.particles[i_].copy() for i_ in range(sim.N)]
+                    order_ = [0] + list(range(npl_ + 1, len(ps_))) + list(range(1, npl_ + 1))
+                    del sim.particles
+                    for i_ in order_:
+                        sim.add(ps_[i_])
             if r.random() < 0.75:
                 boost(sim, r)
             counters['merge_runs'] += 1
